@@ -16,6 +16,8 @@ Proof.
   - unfold gstep in Hs. rewrite Hpc in Hs. apply Some_inj in Hs. apply (step_callouts W s t); [exact HI|]. right; left. eauto.
   - eapply step_NBC; eassumption.
   - eapply step_X_rootpush; eassumption.
+  - unfold gstep in Hs. rewrite Hpc in Hs. apply Some_inj in Hs. subst s'. eapply step_B_tail; [eassumption|eassumption|].
+    destruct (is_nil (lst s)); auto.
   - eapply step_B_acq; eassumption.
   - unfold gstep in Hs. rewrite Hpc in Hs. apply Some_inj in Hs. apply (step_callouts W s t); [exact HI|]. right; right; left. eauto.
   - unfold gstep in Hs. rewrite Hpc in Hs. apply Some_inj in Hs. apply (step_callouts W s t); [exact HI|]. right; right; right; left. eauto.
